@@ -18,6 +18,7 @@ type style struct {
 	Kind   string // gofunc | gomodfunc | reflect
 	CtxPar int    // reflect: 0 = no leading params, 1 = context.Context, 2 = context.Context + api.Module
 	Invert bool   // reflect: use the complement of the case's signedness mask
+	Named  bool   // reflect: user-defined Go types (type myF32 float32 ...) at the positions the case's mask selects, plain types elsewhere
 }
 
 var allStyles = []style{
@@ -27,6 +28,9 @@ var allStyles = []style{
 	{Name: "r1u", Kind: "reflect", CtxPar: 1, Invert: true},
 	{Name: "r2s", Kind: "reflect", CtxPar: 2},
 	{Name: "r2u", Kind: "reflect", CtxPar: 2, Invert: true},
+	{Name: "r0n", Kind: "reflect", CtxPar: 0, Named: true},
+	{Name: "r1n", Kind: "reflect", CtxPar: 1, Named: true, Invert: true},
+	{Name: "r2n", Kind: "reflect", CtxPar: 2, Named: true},
 	{Name: "gf", Kind: "gofunc"},
 	{Name: "gm", Kind: "gomodfunc"},
 }
@@ -68,7 +72,37 @@ var (
 	tMod     = reflect.TypeOf((*api.Module)(nil)).Elem()
 )
 
-// goType of position bit (params: bit = index, results: bit = 16+index).
+// User-defined types of every kind wazero's reflection path accepts.
+type (
+	myI32 int32
+	myU32 uint32
+	myI64 int64
+	myU64 uint64
+	myF32 float32
+	myF64 float64
+	myPtr uintptr
+)
+
+var namedOf = map[reflect.Type]reflect.Type{
+	tInt32: reflect.TypeOf(myI32(0)), tUint32: reflect.TypeOf(myU32(0)), tInt64: reflect.TypeOf(myI64(0)), tUint64: reflect.TypeOf(myU64(0)),
+	tFloat32: reflect.TypeOf(myF32(0)), tFloat64: reflect.TypeOf(myF64(0)), tUintptr: reflect.TypeOf(myPtr(0)),
+}
+
+// goTypeOf: Go type of position bit for a reflect style (params: bit = index,
+// results: bit = 16+index). Named styles use the user-defined type of the same
+// kind at every position when the mask is all ones (exhaustive class), else at
+// the positions a second mask derived from it selects.
+func (st *style) goTypeOf(t T, signMask uint32, bit int) reflect.Type {
+	gt := goType(t, signMask, bit, st.Invert)
+	if st.Named {
+		nm := signMask*0x9E3779B1 ^ signMask>>7
+		if signMask == 0xFFFFFFFF || (nm>>uint(bit))&1 == 1 {
+			return namedOf[gt]
+		}
+	}
+	return gt
+}
+
 func goType(t T, signMask uint32, bit int, invert bool) reflect.Type {
 	signed := (signMask>>uint(bit))&1 == 1
 	if invert {
@@ -102,7 +136,7 @@ func (x *engineRun) typeLabel(st *style, isParam bool, pos int) string {
 		ts, bit = x.spec.P, pos
 	}
 	if st != nil && st.Kind == "reflect" {
-		return goType(ts[pos], x.signMask, bit, st.Invert).Name()
+		return st.goTypeOf(ts[pos], x.signMask, bit).Name()
 	}
 	return wenc.TypeName(ts[pos])
 }
@@ -294,6 +328,35 @@ func (h *hostState) doReenter(sc *script, st *style, r *reenter, ctx context.Con
 	x.compareResults(sc, r.Func, r.Style, r.ResTypes, r.Expect, raw, r.IsMask, true, r.ParamsMask)
 }
 
+// f32BitsOf reads the bits of a (possibly named) float32 reflect.Value from
+// memory, without any floating-point conversion.
+func f32BitsOf(a reflect.Value) uint32 {
+	p := reflect.New(a.Type())
+	p.Elem().Set(a)
+	return *(*uint32)(p.UnsafePointer())
+}
+
+// valueOfBits builds a value of (possibly named) type t from raw bits, floats
+// written through memory so that signalling NaNs survive.
+func valueOfBits(t reflect.Type, v uint64) reflect.Value {
+	p := reflect.New(t)
+	switch t.Kind() {
+	case reflect.Int32:
+		p.Elem().SetInt(int64(int32(uint32(v))))
+	case reflect.Int64:
+		p.Elem().SetInt(int64(v))
+	case reflect.Uint32:
+		p.Elem().SetUint(uint64(uint32(v)))
+	case reflect.Uint64, reflect.Uintptr:
+		p.Elem().SetUint(v)
+	case reflect.Float32:
+		*(*uint32)(p.UnsafePointer()) = uint32(v)
+	case reflect.Float64:
+		*(*uint64)(p.UnsafePointer()) = v
+	}
+	return p.Elem()
+}
+
 // ---- building the host module ----
 
 func (x *engineRun) buildHost(ctx context.Context, rt wazero.Runtime, styles []string) (api.Module, error) {
@@ -324,10 +387,10 @@ func (x *engineRun) buildHost(ctx context.Context, rt wazero.Runtime, styles []s
 			}
 			off := len(in)
 			for i, t := range P {
-				in = append(in, goType(t, x.signMask, i, st.Invert))
+				in = append(in, st.goTypeOf(t, x.signMask, i))
 			}
 			for j, t := range R {
-				out = append(out, goType(t, x.signMask, 16+j, st.Invert))
+				out = append(out, st.goTypeOf(t, x.signMask, 16+j))
 			}
 			ft := reflect.FuncOf(in, out, false)
 			fn := reflect.MakeFunc(ft, func(args []reflect.Value) []reflect.Value {
@@ -350,7 +413,7 @@ func (x *engineRun) buildHost(ctx context.Context, rt wazero.Runtime, styles []s
 					case reflect.Uint32, reflect.Uint64, reflect.Uintptr:
 						got[i].Lo = a.Uint()
 					case reflect.Float32:
-						got[i].Lo = uint64(math.Float32bits(a.Interface().(float32))) // no float64 round trip: keeps sNaNs
+						got[i].Lo = uint64(f32BitsOf(a)) // no float64 round trip: keeps sNaNs
 					case reflect.Float64:
 						got[i].Lo = math.Float64bits(a.Float())
 					}
@@ -359,22 +422,7 @@ func (x *engineRun) buildHost(ctx context.Context, rt wazero.Runtime, styles []s
 				rv := make([]reflect.Value, len(R))
 				for j := range R {
 					v := res[j].Lo
-					switch out[j] {
-					case tInt32:
-						rv[j] = reflect.ValueOf(int32(uint32(v)))
-					case tUint32:
-						rv[j] = reflect.ValueOf(uint32(v))
-					case tInt64:
-						rv[j] = reflect.ValueOf(int64(v))
-					case tUint64:
-						rv[j] = reflect.ValueOf(v)
-					case tFloat32:
-						rv[j] = reflect.ValueOf(math.Float32frombits(uint32(v)))
-					case tFloat64:
-						rv[j] = reflect.ValueOf(math.Float64frombits(v))
-					case tUintptr:
-						rv[j] = reflect.ValueOf(uintptr(v))
-					}
+					rv[j] = valueOfBits(out[j], v)
 				}
 				return rv
 			})
